@@ -1,3 +1,4 @@
+#include <iostream>
 // C08 harness (flavour I, metamorphic): the reported optimum is a function of the weighted graph alone.
 //   mode small : every graph of G(n) x weighting; every image under a complete set of transformations; every exact
 //                variant on every image must return the exactly known expected value (reference optimum of the base).
@@ -149,6 +150,9 @@ static const char *ren_name(int k) { static const char *n[] = {"identity", "reve
 
 int main(int argc, char **argv) {
     vr::Args A(argc, argv);
+#ifdef PARMCB_LOGGING
+    std::cout.setstate(std::ios_base::badbit);      // built against a config.hpp with PARMCB_LOGGING on: the library chats on std::cout (harness output uses stdio)
+#endif
     vr::Runner R;
     R.nworkers = (int) A.geti("workers", 16);
     R.hang_limit_s = 900;
